@@ -385,7 +385,54 @@ func (p *Prog) gatedNonNil(fn *ssa.Function, cz *canonizer, m *ssa.Phi, okEdges 
 	return false, ""
 }
 
+// phiGuardCases: the ways a boolean phi can have the value pol — for every incoming edge that can deliver pol, what is known on
+// that edge: the guards dominating the predecessor, the branch taken from it into the phi's block, and the incoming value itself
+// when it is not a constant. (`a || b` used as a value is such a phi.)
+func phiGuardCases(ph *ssa.Phi, pol bool) [][]guard {
+	var out [][]guard
+	blk := ph.Block()
+	for i, e := range ph.Edges {
+		if b, isC := constBool(e); isC && b != pol {
+			continue
+		}
+		pred := blk.Preds[i]
+		gs := dominatingGuards(pred)
+		if ifi, ok := pred.Instrs[len(pred.Instrs)-1].(*ssa.If); ok {
+			gs = append(gs, guard{ifi.Cond, succIndex(pred, blk, i) == 0})
+		}
+		if _, isC := e.(*ssa.Const); !isC {
+			gs = append(gs, guard{e, pol})
+		}
+		out = append(out, gs)
+	}
+	return out
+}
+
 func (p *Prog) guardsImplyNonNil(fn *ssa.Function, cz *canonizer, m *ssa.Phi, okEdges []int, guards []guard) (bool, string) {
+	return p.guardsImplyNonNilD(fn, cz, m, okEdges, guards, 0)
+}
+
+func (p *Prog) guardsImplyNonNilD(fn *ssa.Function, cz *canonizer, m *ssa.Phi, okEdges []int, guards []guard, depth int) (bool, string) {
+	// a guard that is itself a boolean merge: every way it can hold must exclude the nil case
+	if depth < 4 {
+		for _, g := range guards {
+			ng := normGuard(g)
+			ph, ok := ng.Cond.(*ssa.Phi)
+			if !ok || !isBoolType(ph.Type()) {
+				continue
+			}
+			cases := phiGuardCases(ph, ng.Pol)
+			all := len(cases) > 0
+			for _, gs := range cases {
+				if ok, _ := p.guardsImplyNonNilD(fn, cz, m, okEdges, gs, depth+1); !ok {
+					all = false
+				}
+			}
+			if all {
+				return true, "dominated by a condition every disjunct of which excludes the nil case"
+			}
+		}
+	}
 	// (a)
 	for _, g := range guards {
 		ng := normGuard(g)
@@ -514,24 +561,31 @@ func implies(cz *canonizer, a, b guard) bool {
 
 // resultNeverNilMap: every return of g yields a made (or asserted) map for result idx.
 func (p *Prog) resultNeverNilMap(g *ssa.Function, idx int) bool {
+	key := fmt.Sprintf("rnnm:%p:%d", g, idx)
+	if v, ok := p.facts[key]; ok {
+		return v.(bool) // coinductive over recursion
+	}
+	p.facts[key] = true
 	ok := true
 	n := 0
+	cz := p.canonFor(g)
 	eachInstr(g, func(b *ssa.BasicBlock, in ssa.Instruction) {
 		if ret, isRet := in.(*ssa.Return); isRet {
 			n++
-			v := ret.Results[idx]
-			switch x := v.(type) {
-			case *ssa.MakeMap:
-			case *ssa.ChangeType:
-				if _, isMk := x.X.(*ssa.MakeMap); !isMk {
-					ok = false
-				}
-			default:
+			if idx >= len(ret.Results) {
+				ok = false
+				return
+			}
+			// the same judgement as for a map that is written to: made maps, assertion results under their test, phis whose
+			// possibly-nil edges are excluded by a flag that is set together with the assignment
+			if nn, _ := p.mapNonNil(g, cz, ret.Results[idx], ret); !nn {
 				ok = false
 			}
 		}
 	})
-	return ok && n > 0
+	res := ok && n > 0
+	p.facts[key] = res
+	return res
 }
 
 // nilOnlyWithError: on every return of g where result idx may be nil, the error result is certainly non-nil.
